@@ -18,13 +18,44 @@ import (
 	"fmt"
 	"sort"
 	"strconv"
+	"strings"
 
 	"github.com/pulumi/esc"
 	"github.com/pulumi/pulumi/sdk/v3/go/common/util/contract"
 	"golang.org/x/exp/maps"
 )
 
-func getEnvironmentVariables(env *esc.Environment, quote, redact bool) (environ, secrets []string) {
+// shellQuote quotes s as a single word for a POSIX shell. The result is a double-quoted string in which exactly the
+// characters that keep a special meaning inside double quotes ($, `, " and \) are preceded by a backslash; every other
+// byte, including newlines and non-ASCII bytes, is literal inside double quotes and is copied through unchanged.
+//
+// strconv.Quote must not be used for this purpose: it produces Go syntax, which leaves $ and ` unescaped (so the shell
+// would perform parameter expansion and command substitution) and writes control and non-UTF-8 bytes as escapes such as
+// \n or \x1b that the shell does not interpret.
+func shellQuote(s string) string {
+	var b strings.Builder
+	b.Grow(len(s) + 2)
+	b.WriteByte('"')
+	for i := 0; i < len(s); i++ {
+		switch s[i] {
+		case '$', '`', '"', '\\':
+			b.WriteByte('\\')
+		}
+		b.WriteByte(s[i])
+	}
+	b.WriteByte('"')
+	return b.String()
+}
+
+// quoteValue quotes s for a dotenv file or, if shell is true, for a POSIX shell.
+func quoteValue(s string, shell bool) string {
+	if shell {
+		return shellQuote(s)
+	}
+	return strconv.Quote(s)
+}
+
+func getEnvironmentVariables(env *esc.Environment, quote, shell, redact bool) (environ, secrets []string) {
 	vars := env.GetEnvironmentVariables()
 	keys := maps.Keys(vars)
 	sort.Strings(keys)
@@ -40,7 +71,7 @@ func getEnvironmentVariables(env *esc.Environment, quote, redact bool) (environ,
 			}
 		}
 		if quote {
-			s = strconv.Quote(s)
+			s = quoteValue(s, shell)
 		}
 		environ = append(environ, fmt.Sprintf("%v=%v", k, s))
 	}
@@ -93,7 +124,7 @@ func createTemporaryFiles(e *esc.Environment, opts PrepareOptions) (paths, envir
 			paths = append(paths, path)
 		}
 		if opts.Quote {
-			path = strconv.Quote(path)
+			path = quoteValue(path, opts.Shell)
 		}
 		environ = append(environ, fmt.Sprintf("%v=%v", k, path))
 	}
@@ -103,6 +134,7 @@ func createTemporaryFiles(e *esc.Environment, opts PrepareOptions) (paths, envir
 // PrepareOptions contains options for PrepareEnvironment.
 type PrepareOptions struct {
 	Quote   bool // True to quote environment variable values
+	Shell   bool // True to quote values for evaluation by a POSIX shell rather than as Go strings. Ignored unless Quote is set.
 	Pretend bool // True to skip actually writing temporary files
 	Redact  bool // True to redact secrets. Ignored unless Pretend is set.
 
@@ -119,7 +151,7 @@ func PrepareEnvironment(e *esc.Environment, opts *PrepareOptions) (files, enviro
 		opts.fs = newFS()
 	}
 
-	envVars, envSecrets := getEnvironmentVariables(e, opts.Quote, opts.Redact)
+	envVars, envSecrets := getEnvironmentVariables(e, opts.Quote, opts.Shell, opts.Redact)
 
 	filePaths, fileVars, fileSecrets, err := createTemporaryFiles(e, *opts)
 	if err != nil {
